@@ -70,8 +70,30 @@ def gen_element_orders(tier, rng):
         if rng.random() < 0.4: c += " ; sched %d" % rng.randint(1, 10 ** 6)
         cases.append(c)
     return cases
+def gen_wide_declarations(tier, rng):
+    """the same small model with 60..140 inert one-value variables declared BETWEEN its variables (or before / after them):
+    variable indices far apart, dependency rows far apart (seeded change C14d: a 64-bit "already registered" mask keyed by
+    index mod 64 dropped the second of two trigger variables 64 apart, so the propagator slept)"""
+    cases = []
+    for _ in range(400 if tier == "quick" else 8000):
+        k = rng.choice([2, 2, 3])
+        doms = [rng.choice(["1..3", "0..2", "-1..1", "0,2,3"]) for _ in range(k)]
+        gaps = [rng.choice([0, 0, 1, 62, 63, 64, 65, 127, 128]) for _ in range(k + 1)]
+        decl, idx = [], []
+        for i in range(k):
+            decl += [("%d..%d" % (v, v)) for v in [rng.randint(-2, 2) for _ in range(gaps[i])]]
+            idx.append(len(decl)); decl.append(doms[i])
+        decl += ["0..0"] * gaps[k]
+        props = []
+        for _ in range(rng.choice([1, 2, 2])):
+            a, b = rng.sample(idx, 2)
+            props.append(rng.choice(["neq x%d x%d", "lt x%d x%d", "leq x%d x%d", "lineq 1,1 x%d,x%d 3", "linne 1,-1 x%d,x%d 0", "eq x%d x%d"]) % (a, b))
+        if k == 3 and rng.random() < 0.5: props.append("alldiff " + ",".join("x%d" % i for i in idx))
+        cases.append(" ; ".join(["|".join(decl)] + props + [rng.choice(["enum", "enum", "first", "min x%d" % idx[0]])]))
+    return cases
 FAMILIES = [
     Family("schedules", "solve", gen_sched, nontrivial=ec.nontrivial_solve, prop_judge=plevel.judge_solve),
     Family("permutations_implied", "solve", gen_perm, nontrivial=ec.nontrivial_solve, prop_judge=plevel.judge_solve),
     Family("element_orders", "solve", gen_element_orders, nontrivial=ec.nontrivial_solve, prop_judge=plevel.judge_solve),
+    Family("wide_declarations", "solve", gen_wide_declarations, nontrivial=ec.nontrivial_solve, prop_judge=plevel.judge_solve),
 ]
